@@ -6,14 +6,10 @@ CommitMessages calls, generation begin/end, ticks, coordinator answers to Offset
 reader close during a retry), and over every OffsetFetch answer for the start offsets (`Model/GroupStart.lean`).
 
 Partial aspects (kept visible):
-* `sync_commit_recorded_partial` is the state-level core (a positive answer to a synchronous CommitMessages is only
-  produced after an acknowledged OffsetCommit of a stash that dominates the request); the history-level statement
-  "issued after the call began" is checked on every recorded trace by the oracle monitor `sync-commit-not-recorded`,
-  not proved here.
 * the group-level corollaries (`delivered_before_covered`, `quiescent_all_delivered`) need C02's iterated-fetch
   theorem and an abstract multi-member history; they are not stated in this file (see docs/notes/C03.md).
 -/
-import KafkaVerif.Lemmas.Commit
+import KafkaVerif.Lemmas.CommitSync
 import KafkaVerif.Model.GroupStart
 import KafkaVerif.Gen.GroupFacts
 
@@ -87,11 +83,35 @@ theorem merge_sound (s : Stash) (cs : List Commit) (e : TP × Int) (h : e ∈ s.
 
 theorem makeCommit_offset (m : TP × Int) : (makeCommit m).offset = m.2 + 1 ∧ (makeCommit m).tp = m.1 := ⟨rfl, rfl⟩
 
-/-! ### sync_commit_recorded (state-level core) -/
+/-! ### sync_commit_recorded -/
 
-/-- A positive answer is only given from a `done … true` state, and that state is only entered by an acknowledged
-OffsetCommit attempt carrying the whole stash — or with an empty stash (nothing to commit). -/
-theorem sync_commit_recorded_partial (s s' : CState) (offs : Stash)
+/-- History level: whenever the commit loop has answered a synchronous CommitMessages request `r` with nil
+(`(r, true) ∈ replied` — the only way `CommitMessages` returns nil in sync mode), then for every commit of the request
+there is an *acknowledged* OffsetCommit request in the history, issued after the call began (`sentAtCall ≤ i`: at
+least as many requests were issued before it as at the moment of the call), carrying for that partition an offset
+≥ the commit's offset. -/
+theorem sync_commit_recorded (s : CState) (h : CReachable s) (r : Req) (hr : (r, true) ∈ s.replied) :
+    ∀ c ∈ r.commits, ∃ i offs, s.sent[i]? = some (offs, true) ∧ r.sentAtCall ≤ i ∧
+      ∃ o, (c.tp, o) ∈ offs ∧ c.offset ≤ o :=
+  (sinv_reachable s h).recr (r, true) hr rfl
+
+/-- in terms of the messages: requests are built by `makeCommit`, so the recorded offset is ≥ m.Offset + 1 -/
+theorem sync_commit_recorded_msgs (s : CState) (h : CReachable s) (r : Req) (hr : (r, true) ∈ s.replied)
+    (m : TP × Int) (hm : makeCommit m ∈ r.commits) :
+    ∃ i offs, s.sent[i]? = some (offs, true) ∧ r.sentAtCall ≤ i ∧ ∃ o, (m.1, o) ∈ offs ∧ m.2 + 1 ≤ o :=
+  sync_commit_recorded s h r hr (makeCommit m) hm
+
+/-- the stash is a map: its keys stay unique under every event sequence -/
+theorem stash_keys_unique (s : CState) (h : CReachable s) : Uniq s.stash := (sinv_reachable s h).uniq
+
+/-- non-vacuity: in `sample` both requests were answered nil, and e.g. request 1 (called after one request had been
+issued) is recorded by the third request -/
+example : (crun {} sample).map (fun s => (s.replied.map (fun x => (x.1.id, x.1.sentAtCall, x.2)), s.sent.map (·.2)))
+    = some ([(0, 0, true), (1, 1, true)], [false, true, true]) := by decide
+
+/-- State-level step lemma: a successful attempt carries the whole stash, is appended to the history as acknowledged and
+leads to the answering state. -/
+theorem acked_attempt_enters_done (s s' : CState) (offs : Stash)
     (h : cstep s (.attempt offs true) = some s') :
     (∃ rs' f, s'.pc = .done rs' true f) ∧ s'.sent = s.sent ++ [(offs, true)] ∧ sameMap offs s.stash = true := by
   have f := settle_fields s
